@@ -115,6 +115,9 @@ def make_spec(kind, text, variables, semantics=None, io=None, consts=(), unit=No
         spec.declare_const(name, typ, val)
     if io:
         for v, t in io.items():
+            if zlib.crc32((text + v).encode("utf-8")) % 4 == 0 and t in ("input", "output"):
+                # the io type is changed after it has been set to the other one: the last call is the one that counts
+                spec.set_var_io_type(v, "output" if t == "input" else "input")
             spec.set_var_io_type(v, t)
     if unit is not None:
         spec.unit = unit
@@ -166,8 +169,9 @@ def eval_offline_discrete(text, variables, data, n, time=None, limit=20.0, timeo
     return guarded(go, limit, timeout_is_outcome)
 
 
-def run_online_discrete(text, variables, data, n, pastify=False, time=None, limit=20.0, timeout_is_outcome=False, **kw):
-    """payload = list of update() return values, one per step."""
+def run_online_discrete(text, variables, data, n, pastify=False, time=None, limit=20.0, timeout_is_outcome=False, extra_entries=None, **kw):
+    """payload = list of update() return values, one per step.  `extra_entries`: (position, name) - an entry that is not an input
+    of the specification (an unused log column, the output variable) is put at that position of every row: it has to be ignored."""
     struct = kw.get("struct", ())
 
     def go():
@@ -179,6 +183,9 @@ def run_online_discrete(text, variables, data, n, pastify=False, time=None, limi
         outs = []
         for i in range(n):
             t = time[i] if time is not None else i
-            outs.append(spec.update(t, [(v, Msg(data[v][i]) if v in struct else data[v][i]) for v in data]))
+            row = [(v, Msg(data[v][i]) if v in struct else data[v][i]) for v in data]
+            if extra_entries:
+                row.insert(min(extra_entries[0], len(row)), (extra_entries[1], 7.0))
+            outs.append(spec.update(t, row))
         return outs
     return guarded(go, limit, timeout_is_outcome)
